@@ -6,7 +6,9 @@ SPEC = {
     "components": {"1": "diff.Diff delta", "2": "merge.Merge result", "3": "client/src/merge.ts result",
                    "4": "diff.Diff delta on Go-typed values, after JSON (generic model)", "5": "merge.Merge on it (generic model)",
                    "6": "client/src/merge.ts on it (generic model)", "7": "merge.Merge on an edited delta: value / error",
-                   "8": "client/src/merge.ts on an edited delta"},
+                   "8": "client/src/merge.ts on an edited delta",
+                   "9": "the implementation's index lists are matchings as documented",
+                   "10": "pass-through lists of markReplaced / mergeReplaced (read from the sources) satisfy lists_ok"},
     "corr_name": "DiffMerge.Model (diff, merge, merge_js) vs diff.Diff / merge.Merge / merge.ts",
     "trusted_base": [
         "Coq 8.16.1 kernel and vm_compute (no native_compute); Print Assumptions: closed under the global context",
